@@ -37,7 +37,8 @@ import (
 )
 
 const rule = "abi: the ABI contains a tuple nested in a tuple, or a tuple inside an array of >= 2 dimensions; " +
-	"schema: a mutated or arbitrary parameter schema that still passes the FFI meta-schema (so the conversion code behind the validation is reached); distinct by hash of the case"
+	"schema: a mutated or arbitrary parameter schema that still passes the FFI meta-schema (so the conversion code behind the validation is reached); " +
+	"convseq: a history in which a name was converted before under another schema or a $ref names a parameter converted earlier; shared: as abi; every concurrent batch; distinct by hash of the case"
 
 // ---------------------------------------------------------------------------
 // ABI model of the cases (field names = JSON ABI, so a case is an ABI document)
@@ -1282,7 +1283,7 @@ func TestCheck(t *testing.T) {
 		if s.anyTuple {
 			m.cABI.offer(c)
 			m.nShared++
-			if m.nShared%5 == 0 {
+			if m.nShared%8 == 0 {
 				m.kShared.Check(rt, SharedCase{ABI: c.ABI, Workers: 6}, s.tupleInTuple || s.tupleIn2D, "shared:one-definition-many-goroutines")
 			}
 		}
